@@ -305,6 +305,11 @@ type machine struct {
 	nontrivial bool
 	slots      [2]hackpadfs.File // handles kept open across steps (stale-handle histories)
 	slotPath   [2]string
+	// delivered: per open directory handle, how often its pages have handed out each path; disturbed: paths a namespace
+	// operation has touched since (removed, renamed, re-created): only entries that were simply THERE all the time are
+	// required to come exactly once
+	delivered [2]map[string]int
+	disturbed [2]map[string]bool
 }
 
 func (m *machine) openPaths() []string {
@@ -334,6 +339,7 @@ func (m *machine) handleStep(op ops.Op) ops.Res {
 			}
 			m.slots[op.N%2] = nf
 			m.slotPath[op.N%2] = op.P
+			m.delivered[op.N%2], m.disturbed[op.N%2] = map[string]int{}, map[string]bool{}
 		case "hwrite":
 			if f != nil {
 				_, res.Err = hackpadfs.WriteFile(f, op.Data)
@@ -353,9 +359,13 @@ func (m *machine) handleStep(op ops.Op) ops.Res {
 				if n == 0 {
 					n = -1
 				}
-				_, res.Err = hackpadfs.ReadDirFile(f, n)
+				var des []hackpadfs.DirEntry
+				des, res.Err = hackpadfs.ReadDirFile(f, n)
 				if res.Err == io.EOF {
 					res.Err = nil
+				}
+				for _, de := range des {
+					res.Ents = append(res.Ents, ops.Ent{Name: de.Name(), IsDir: de.IsDir()})
 				}
 			}
 		case "hclose":
@@ -401,6 +411,34 @@ func (m *machine) step(op ops.Op, situation string) (string, string) {
 	}
 	if m.s.store != nil {
 		m.s.store.FailAt = 0
+	}
+	for i := range m.slots {
+		if m.delivered[i] == nil {
+			continue
+		}
+		if op.K == "hreaddir" && op.N%2 == i {
+			for _, e := range res.Ents {
+				full := path.Join(m.slotPath[i], e.Name)
+				m.delivered[i][full]++
+				if m.delivered[i][full] > 1 && !m.disturbed[i][full] {
+					return base + ":I4-entry-twice-from-one-handle", fmt.Sprintf("%v handed out %q for the %d. time on the same directory handle (opened on %q), and nothing has removed, renamed or re-created that entry in between", op, full, m.delivered[i][full], m.slotPath[i])
+				}
+			}
+		} else if !strings.HasPrefix(op.K, "h") {
+			// any namespace operation on the entry, or on a directory above it, disturbs it
+			for full := range m.delivered[i] {
+				for _, p := range []string{op.P, op.P2} {
+					if p != "" && (p == "." || p == full || strings.HasPrefix(full, p+"/")) {
+						m.disturbed[i][full] = true
+					}
+				}
+			}
+			for _, p := range []string{op.P, op.P2} {
+				if p != "" {
+					m.disturbed[i][p] = true
+				}
+			}
+		}
 	}
 	if res.Hung {
 		return base + ":I5-hang", fmt.Sprintf("%v did not return", op)
